@@ -2030,3 +2030,408 @@ Proof.
 Qed.
 
 End Streams.
+
+(* ------------------------------------------------------------------ *)
+(** * 13. A decision procedure for the covered fragment *)
+
+Definition id_okb (id : bytes) : bool := (1 <=? len id) && (len id <=? identifier_max_length).
+
+Definition simple_okb (e : event) : bool :=
+  match e with
+  | ENull | ETrue | EFalse | EBool _ | EList | EMap | EEdge | ENode | EEnd | EPadding | EComment _ _ => true
+  | EPosInt n | ENegInt n => n <? two64
+  | EInt z => is_i64 z
+  | EBigInt None => true
+  | EBigInt (Some z) => N.size (Z.abs_N z) <=? 8192
+  | EFloat b => b <? two64
+  | EBigFloat None => true
+  | EBigFloat (Some (BInf _)) => true
+  | EBigFloat (Some (BFin neg mant exp _)) =>
+      match bigfloat_to_f64 neg mant exp with Some b => b <? two64 | None => false end
+  | ENan _ => true
+  | EDecimal d => dfloat_small_ok d
+  | EBigDecimal None => true
+  | EBigDecimal (Some (DFin neg c e)) => negb (c =? 0) && (Z.abs e <? 2147483648)%Z
+  | EBigDecimal (Some _) => true
+  | EUid b => bytes_wfb b && (len b =? 16)
+  | ERecordType id | ERecord id | EMarker id | ERefLocal id => bytes_wfb id && id_okb id
+  | EArray t n d => arr_ok t && (n <? two63) && bytes_wfb d && (len d =? elem_bytes (element_bits t) n)
+  | EStringArray t d => arr_ok t && (element_bits t =? 8) && bytes_wfb d && (len d <? two61)
+  | EMedia mt d => bytes_wfb mt && (len mt <=? media_type_max_length) && bytes_wfb d && (len d <? two61)
+  | ECustomBin ct d => (ct <=? custom_type_max) && bytes_wfb d && (len d <? two61)
+  | _ => false
+  end.
+
+Lemma size_bound m : N.size m <= 8192 -> m < 256 ^ N.of_nat 1024.
+Proof.
+  intro H. pose proof (N.size_gt m) as G. eapply N.lt_le_trans; [exact G|].
+  rewrite pow256_pow2. apply N.pow_le_mono_r; [discriminate | lia].
+Qed.
+
+Ltac split_andb H :=
+  repeat match type of H with
+         | (_ && _) = true => let H1 := fresh H in apply andb_true_iff in H as [H H1]; split_andb H1
+         end.
+
+Lemma simple_okb_sound e : simple_okb e = true -> simple_ok e.
+Proof.
+  destruct e; cbn [simple_okb simple_ok]; intro H; try discriminate; try exact I.
+  - apply N.ltb_lt. exact H.
+  - apply N.ltb_lt. exact H.
+  - exact H.
+  - destruct v as [z|]; [|exact I]. apply size_bound. apply N.leb_le. exact H.
+  - apply N.ltb_lt. exact H.
+  - destruct v as [[neg mant exp prec|neg]|]; try exact I.
+    destruct (bigfloat_to_f64 neg mant exp) as [b|]; [|discriminate]. apply N.ltb_lt. exact H.
+  - exact H.
+  - destruct v as [[neg c e|neg| |]|]; try exact I.
+    apply andb_true_iff in H as [H1 H2]. apply negb_true_iff, N.eqb_neq in H1. apply Z.ltb_lt in H2. auto.
+  - apply andb_true_iff in H as [H1 H2]. split; [apply bytes_wfb_wf; exact H1 | apply N.eqb_eq; exact H2].
+  - apply andb_true_iff in H as [H1 H2]. split; [apply bytes_wfb_wf; exact H1|].
+    unfold id_okb in H2. apply andb_true_iff in H2 as [A B]. split; [apply N.leb_le; exact A | apply N.leb_le; exact B].
+  - apply andb_true_iff in H as [H1 H2]. split; [apply bytes_wfb_wf; exact H1|].
+    unfold id_okb in H2. apply andb_true_iff in H2 as [A B]. split; [apply N.leb_le; exact A | apply N.leb_le; exact B].
+  - apply andb_true_iff in H as [H1 H2]. split; [apply bytes_wfb_wf; exact H1|].
+    unfold id_okb in H2. apply andb_true_iff in H2 as [A B]. split; [apply N.leb_le; exact A | apply N.leb_le; exact B].
+  - apply andb_true_iff in H as [H1 H2]. split; [apply bytes_wfb_wf; exact H1|].
+    unfold id_okb in H2. apply andb_true_iff in H2 as [A B]. split; [apply N.leb_le; exact A | apply N.leb_le; exact B].
+  - apply andb_true_iff in H as [H H4]. apply andb_true_iff in H as [H H3]. apply andb_true_iff in H as [H1 H2].
+    repeat split; [exact H1 | apply N.ltb_lt; exact H2 | apply bytes_wfb_wf; exact H3 | apply N.eqb_eq; exact H4].
+  - apply andb_true_iff in H as [H H4]. apply andb_true_iff in H as [H H3]. apply andb_true_iff in H as [H1 H2].
+    repeat split; [exact H1 | apply N.eqb_eq; exact H2 | apply bytes_wfb_wf; exact H3 | apply N.ltb_lt; exact H4].
+  - apply andb_true_iff in H as [H H4]. apply andb_true_iff in H as [H H3]. apply andb_true_iff in H as [H1 H2].
+    repeat split; [apply bytes_wfb_wf; exact H1 | apply N.leb_le; exact H2 | apply bytes_wfb_wf; exact H3 | apply N.ltb_lt; exact H4].
+  - apply andb_true_iff in H as [H H3]. apply andb_true_iff in H as [H1 H2].
+    repeat split; [apply N.leb_le; exact H1 | apply bytes_wfb_wf; exact H2 | apply N.ltb_lt; exact H3].
+Qed.
+
+(* leading data events *)
+Fixpoint take_data (es : list event) : list bytes * list event :=
+  match es with
+  | EArrayData d :: r => let '(ds, r') := take_data r in (d :: ds, r')
+  | _ => ([], es)
+  end.
+
+Lemma take_data_spec es : es = map EArrayData (fst (take_data es)) ++ snd (take_data es).
+Proof.
+  induction es as [|e r IH]; [reflexivity|].
+  destruct e; try reflexivity. cbn [take_data]. destruct (take_data r) as [ds r'] eqn:E.
+  cbn [fst snd map app] in *. rewrite <- IH. reflexivity.
+Qed.
+
+Lemma take_data_length es : (length (snd (take_data es)) <= length es)%nat.
+Proof.
+  induction es as [|e r IH]; [cbn; lia|]. destruct e; cbn [take_data snd length]; try lia.
+  destruct (take_data r) as [ds r']. cbn [snd] in *. lia.
+Qed.
+
+(* chunk events up to and including the final chunk *)
+Fixpoint take_chunks (fuel : nat) (es : list event) : option (list rchunk * list event) :=
+  match fuel with
+  | O => None
+  | S f =>
+      match es with
+      | EArrayChunk n more :: r =>
+          let '(ds, r1) := take_data r in
+          if more then
+            match take_chunks f r1 with
+            | Some (cs, r2) => Some ((n, more, ds) :: cs, r2)
+            | None => None
+            end
+          else Some ([(n, false, ds)], r1)
+      | _ => None
+      end
+  end.
+
+Lemma take_chunks_spec fuel es cs r :
+  take_chunks fuel es = Some (cs, r) -> es = raw_chunk_events cs ++ r /\ (length r <= length es)%nat.
+Proof.
+  revert es cs r; induction fuel as [|f IH]; intros es cs r H; [discriminate|].
+  cbn [take_chunks] in H. destruct es as [|e es']; [discriminate|]. destruct e; try discriminate.
+  pose proof (take_data_spec es') as D. pose proof (take_data_length es') as DL.
+  destruct (take_data es') as [ds r1]. cbn [fst snd] in D, DL.
+  destruct more.
+  - destruct (take_chunks f r1) as [[cs' r2]|] eqn:E; [|discriminate]. injection H as <- <-.
+    destruct (IH _ _ _ E) as [E1 E2]. split.
+    + cbn [raw_chunk_events flat_map]. fold (raw_chunk_events cs'). cbn [app]. rewrite <- app_assoc, <- E1, <- D. reflexivity.
+    + cbn [length]. lia.
+  - injection H as <- <-. split.
+    + cbn [raw_chunk_events flat_map app]. rewrite app_nil_r. rewrite <- D. reflexivity.
+    + cbn [length]. lia.
+Qed.
+
+Fixpoint chunks_wfb (width : N) (cs : list chunk) : bool :=
+  match cs with
+  | [] => false
+  | (n, more, d) :: r =>
+      (n <? two63) && (len d =? elem_bytes width n) &&
+      (if more then chunks_wfb width r else match r with [] => true | _ => false end)
+  end.
+
+Lemma chunks_wfb_sound width cs : chunks_wfb width cs = true -> chunks_wf width cs.
+Proof.
+  induction cs as [|[[n more] d] r IH]; [discriminate|]. cbn [chunks_wfb]. intro H.
+  apply andb_true_iff in H as [H H3]. apply andb_true_iff in H as [H1 H2].
+  apply N.ltb_lt in H1. apply N.eqb_eq in H2. destruct more.
+  - apply cw_more; [exact H1 | exact H2 | apply IH; exact H3].
+  - destruct r; [|discriminate]. apply cw_last; assumption.
+Qed.
+
+Definition rchunks_data_wfb (cs : list rchunk) : bool :=
+  forallb (fun c : rchunk => forallb bytes_wfb (snd c)) cs.
+
+Lemma rchunks_data_wfb_sound cs : rchunks_data_wfb cs = true -> rchunks_data_wf cs.
+Proof.
+  unfold rchunks_data_wfb, rchunks_data_wf. rewrite forallb_forall, Forall_forall. intros H c Hc.
+  specialize (H c Hc). rewrite forallb_forall in H. rewrite Forall_forall. intros d Hd.
+  apply bytes_wfb_wf. apply H. exact Hd.
+Qed.
+
+Fixpoint wf_bodyb (fuel : nat) (es : list event) : bool :=
+  match fuel with
+  | O => false
+  | S f =>
+      match es with
+      | [] => true
+      | EArrayBegin t :: r =>
+          match take_chunks (S (length r)) r with
+          | Some (cs, r') =>
+              arr_ok t && chunks_wfb (element_bits t) (map merge cs) && rchunks_data_wfb cs && wf_bodyb f r'
+          | None => false
+          end
+      | EMediaBegin mt :: r =>
+          match take_chunks (S (length r)) r with
+          | Some (cs, r') =>
+              bytes_wfb mt && (len mt <=? media_type_max_length) && chunks_wfb 8 (map merge cs) &&
+              rchunks_data_wfb cs && wf_bodyb f r'
+          | None => false
+          end
+      | ECustomBegin t ct :: r =>
+          match take_chunks (S (length r)) r with
+          | Some (cs, r') =>
+              (t <? 256) && (ct <=? custom_type_max) && chunks_wfb 8 (map merge cs) &&
+              rchunks_data_wfb cs && wf_bodyb f r'
+          | None => false
+          end
+      | e :: r => simple_okb e && wf_bodyb f r
+      end
+  end.
+
+Lemma wf_bodyb_sound fuel es : wf_bodyb fuel es = true -> wf_body es.
+Proof.
+  revert es; induction fuel as [|f IH]; intros es H; [discriminate|].
+  destruct es as [|e r]; [apply wb_nil|].
+  assert (Simple : simple_okb e && wf_bodyb f r = true -> wf_body (e :: r)).
+  { intro S. apply andb_true_iff in S as [S1 S2].
+    apply (wb_app [e] r); [apply wu_simple; apply simple_okb_sound; exact S1 | apply IH; exact S2]. }
+  destruct e; try (apply Simple; exact H); cbn [wf_bodyb] in H.
+  - (* EArrayBegin *)
+    destruct (take_chunks (S (length r)) r) as [[cs r']|] eqn:E; [|discriminate].
+    destruct (take_chunks_spec _ _ _ _ E) as [E1 _].
+    apply andb_true_iff in H as [H H4]. apply andb_true_iff in H as [H H3]. apply andb_true_iff in H as [H1 H2].
+    rewrite E1. apply (wb_app (EArrayBegin t :: raw_chunk_events cs) r'); [|apply IH; exact H4].
+    apply wu_array; [exact H1 | apply chunks_wfb_sound; exact H2 | apply rchunks_data_wfb_sound; exact H3].
+  - (* EMediaBegin *)
+    destruct (take_chunks (S (length r)) r) as [[cs r']|] eqn:E; [|discriminate].
+    destruct (take_chunks_spec _ _ _ _ E) as [E1 _].
+    apply andb_true_iff in H as [H H5]. apply andb_true_iff in H as [H H4]. apply andb_true_iff in H as [H H3].
+    apply andb_true_iff in H as [H1 H2].
+    rewrite E1. apply (wb_app (EMediaBegin mediatype :: raw_chunk_events cs) r'); [|apply IH; exact H5].
+    apply wu_media; [apply bytes_wfb_wf; exact H1 | apply N.leb_le; exact H2 | apply chunks_wfb_sound; exact H3 |
+                     apply rchunks_data_wfb_sound; exact H4].
+  - (* ECustomBegin *)
+    destruct (take_chunks (S (length r)) r) as [[cs r']|] eqn:E; [|discriminate].
+    destruct (take_chunks_spec _ _ _ _ E) as [E1 _].
+    apply andb_true_iff in H as [H H5]. apply andb_true_iff in H as [H H4]. apply andb_true_iff in H as [H H3].
+    apply andb_true_iff in H as [H1 H2].
+    rewrite E1. apply (wb_app (ECustomBegin t ct :: raw_chunk_events cs) r'); [|apply IH; exact H5].
+    apply wu_custom; [apply N.ltb_lt; exact H1 | apply N.leb_le; exact H2 | apply chunks_wfb_sound; exact H3 |
+                      apply rchunks_data_wfb_sound; exact H4].
+Qed.
+
+(* a whole document: begin, a version other than 1, a covered body, end *)
+Definition doc_body (es : list event) : option (N * list event) :=
+  match es with
+  | EBeginDoc :: EVersion v :: rest =>
+      match rev rest with
+      | EEndDoc :: rbody => Some (v, rev rbody)
+      | _ => None
+      end
+  | _ => None
+  end.
+
+Definition doc_okb (es : list event) : bool :=
+  match doc_body es with
+  | Some (v, body) => (v <? two64) && negb (v =? 1) && wf_bodyb (S (length body)) body
+  | None => false
+  end.
+
+Lemma doc_body_spec es v body : doc_body es = Some (v, body) -> es = EBeginDoc :: EVersion v :: body ++ [EEndDoc].
+Proof.
+  unfold doc_body. destruct es as [|e1 [|e2 rest]]; try discriminate; destruct e1; try discriminate.
+  destruct e2; try discriminate. destruct (rev rest) as [|l rbody] eqn:E; [discriminate|].
+  destruct l; try discriminate. intro H. injection H as <- <-.
+  rewrite <- (rev_involutive rest), E. reflexivity.
+Qed.
+
+(* the idempotence theorem with a decidable hypothesis *)
+Theorem reencode_idempotent_checked cfg es doc :
+  doc_okb es = true -> cbe_encode es = Some doc -> len doc <= max_doc_size cfg ->
+  snd (cbe_decode cfg doc) = DOk /\ cbe_encode (fst (cbe_decode cfg doc)) = Some doc.
+Proof.
+  unfold doc_okb. intros H Henc Hlen. destruct (doc_body es) as [[v body]|] eqn:E; [|discriminate].
+  apply doc_body_spec in E. subst es.
+  apply andb_true_iff in H as [H H3]. apply andb_true_iff in H as [H1 H2].
+  apply N.ltb_lt in H1. apply negb_true_iff, N.eqb_neq in H2. apply wf_bodyb_sound in H3.
+  eapply reencode_idempotent; eassumption.
+Qed.
+
+(* ------------------------------------------------------------------ *)
+(** * 14. The unrestricted idempotence statement and where it fails *)
+
+(* "Decoding an encoder-produced document and encoding it again reproduces it byte
+   for byte", for every stream the model's encoder accepts. *)
+Definition reencode_full : Prop :=
+  forall es doc, cbe_encode es = Some doc ->
+    snd (cbe_decode default_dcfg doc) = DOk /\ cbe_encode (fst (cbe_decode default_dcfg doc)) = Some doc.
+
+Definition bigdecimal_zero_doc : list event := [EBeginDoc; EVersion 0; EBigDecimal (Some (DFin false 0 0)); EEndDoc].
+Definition bigdecimal_negzero_doc : list event := [EBeginDoc; EVersion 0; EBigDecimal (Some (DFin true 0 0)); EEndDoc].
+Definition bigdecimal_expmin_doc : list event :=
+  [EBeginDoc; EVersion 0; EBigDecimal (Some (DFin false 7 (-2147483648))); EEndDoc].
+
+(* a big decimal zero is written as 76 02, read back as the DFloat zero, and that is written as 00 *)
+Lemma reencode_bigdecimal_zero :
+  cbe_encode bigdecimal_zero_doc = Some [129; 0; 118; 2] /\
+  cbe_decode default_dcfg [129; 0; 118; 2] = ([EBeginDoc; EVersion 0; EDecimal (DFin false 0 0); EEndDoc], DOk) /\
+  cbe_encode (fst (cbe_decode default_dcfg [129; 0; 118; 2])) = Some [129; 0; 0].
+Proof. vm_compute. repeat split. Qed.
+
+Lemma reencode_bigdecimal_negzero :
+  cbe_encode bigdecimal_negzero_doc = Some [129; 0; 118; 3] /\
+  cbe_encode (fst (cbe_decode default_dcfg [129; 0; 118; 3])) = Some [129; 0; 105; 0].
+Proof. vm_compute. repeat split. Qed.
+
+(* an apd exponent of MinInt32 is written as a field the decoder rejects *)
+Lemma reencode_bigdecimal_expmin :
+  cbe_encode bigdecimal_expmin_doc = Some [129; 0; 118; 130; 128; 128; 128; 224; 255; 255; 255; 255; 1; 7] /\
+  snd (cbe_decode default_dcfg [129; 0; 118; 130; 128; 128; 128; 224; 255; 255; 255; 255; 1; 7]) = DErr.
+Proof. vm_compute. split; reflexivity. Qed.
+
+Theorem reencode_full_refuted : ~ reencode_full.
+Proof.
+  intro H. destruct reencode_bigdecimal_zero as (E1 & _ & E3).
+  destruct (H bigdecimal_zero_doc _ E1) as [_ C]. rewrite E3 in C. discriminate.
+Qed.
+
+(* ------------------------------------------------------------------ *)
+(** * 15. Examples (non-vacuity) *)
+
+Example ex_int_menu :
+  map (fun m => (length (enc_signed false m), length (enc_signed true m)))
+      [0; 100; 101; 255; 256; 65535; 65536; 4294967295; 4294967296; 281474976710655; 281474976710656;
+       18446744073709551615; 18446744073709551616]
+  = [(1, 2); (1, 1); (2, 2); (2, 2); (3, 3); (3, 3); (5, 5); (5, 5); (7, 7); (8, 8); (9, 9); (9, 9); (11, 11)]%nat.
+Proof. vm_compute. reflexivity. Qed.
+
+Example ex_int_menu_min :
+  list_min (map snd (int_menu true 70000)) = Some 5%nat /\ list_min (map snd (int_menu false 0)) = Some 1%nat.
+Proof. vm_compute. split; reflexivity. Qed.
+
+Example ex_float_widths :
+  map (fun b => length (enc_float b))
+      [0x3ff8000000000000; 0x3ff8000020000000; 0x3ff8000000000001; 0x7ff0000000000000; 0x8000000000000000; 0]
+  = [3; 5; 9; 3; 2; 1]%nat.
+Proof. vm_compute. reflexivity. Qed.
+
+Definition ex_doc : list event :=
+  [EBeginDoc; EVersion 0; EList; EPosInt 300; EInt (-5); EBigInt (Some (-18446744073709551616)%Z);
+   EFloat 0x3ff8000000000000; EFloat 0x7ff8000000000001; EStringArray cbeAT_String [104; 105];
+   EArray cbeAT_Uint16 2 [1; 0; 2; 0];
+   EArrayBegin cbeAT_String; EArrayChunk 2 true; EArrayData [104]; EArrayData [105]; EArrayChunk 0 false;
+   EArrayBegin cbeAT_Uint8; EArrayChunk 3 false; EArrayData [1; 2; 3];
+   EMedia [97; 47; 98] [1; 2]; ECustomBin 9 [7]; EMarker [109; 49]; ERefLocal [109; 49];
+   EDecimal (DFin true 15 (-1)); EBigDecimal (Some (DFin false 18446744073709551616 3));
+   EComment false [120]; EPadding; EBool true; ENull; EEnd; EEndDoc].
+
+Example ex_doc_covered : doc_okb ex_doc = true.
+Proof. vm_compute. reflexivity. Qed.
+
+Definition ex_doc_bytes : bytes := match cbe_encode ex_doc with Some d => d | None => [] end.
+
+Example ex_doc_idempotent :
+  cbe_encode ex_doc = Some ex_doc_bytes /\ (30 < length ex_doc_bytes)%nat /\
+  snd (cbe_decode default_dcfg ex_doc_bytes) = DOk /\
+  cbe_encode (fst (cbe_decode default_dcfg ex_doc_bytes)) = Some ex_doc_bytes /\
+  events_eqb (fst (cbe_decode default_dcfg ex_doc_bytes)) ex_doc = false.
+Proof. vm_compute. repeat split. lia. Qed.
+
+(* ------------------------------------------------------------------ *)
+(** * 16. The integer events *)
+
+(* sign and magnitude an integer event denotes (ENegInt 0 is the negative zero) *)
+Definition int_event_value (e : event) : option (bool * N) :=
+  match e with
+  | EPosInt n => if n <? two64 then Some (false, n) else None
+  | ENegInt n => if n <? two64 then Some (true, n) else None
+  | EInt z => if is_i64 z then Some ((z <? 0)%Z, Z.abs_N z) else None
+  | EBigInt (Some z) => Some ((z <? 0)%Z, Z.abs_N z)
+  | _ => None
+  end.
+
+Lemma int_event_encoding st e neg m :
+  int_event_value e = Some (neg, m) -> cbe_encode_event st e = Some (st, enc_signed neg m).
+Proof.
+  destruct e; cbn [int_event_value]; try discriminate.
+  - destruct (N.ltb_spec n two64) as [L|L]; [|discriminate]. intro H. injection H as <- <-.
+    unfold cbe_encode_event. rewrite is_u64_true by exact L. rewrite enc_pos_int_signed by exact L. reflexivity.
+  - destruct (N.ltb_spec n two64) as [L|L]; [|discriminate]. intro H. injection H as <- <-.
+    unfold cbe_encode_event. rewrite is_u64_true by exact L. rewrite enc_neg_int_signed by exact L. reflexivity.
+  - destruct (is_i64 z) eqn:L; [|discriminate]. intro H. injection H as <- <-.
+    unfold cbe_encode_event. rewrite L. rewrite enc_int_signed by exact L. reflexivity.
+  - destruct v as [z|]; [|discriminate]. intro H. injection H as <- <-.
+    unfold cbe_encode_event. rewrite enc_big_int_signed. reflexivity.
+Qed.
+
+(* Every integer event is written in a form of the format's menu that can hold
+   its value, and no form of the menu that can hold the value is shorter. *)
+Theorem int_event_minimal st e neg m :
+  int_event_value e = Some (neg, m) ->
+  exists B, cbe_encode_event st e = Some (st, B) /\
+    form_available neg m (chosen_form neg m) /\ length B = form_length (chosen_form neg m) /\
+    forall f, form_available neg m f -> (length B <= form_length f)%nat.
+Proof.
+  intro H. exists (enc_signed neg m). split; [apply int_event_encoding; exact H|]. apply int_minimal.
+Qed.
+
+Theorem float_event_narrowest st b :
+  b < 2 ^ 64 -> f64_ordinary b = true ->
+  exists B, cbe_encode_event st (EFloat b) = Some (st, B) /\
+    length B = S (width_bytes (float_width b)) /\ repr_in (float_width b) b /\
+    forall w, repr_in w b -> (width_bytes (float_width b) <= width_bytes w)%nat.
+Proof.
+  intros Hb Ho. exists (enc_float b). split; [|apply float_narrowest; assumption].
+  unfold cbe_encode_event. rewrite is_u64_true by exact Hb. reflexivity.
+Qed.
+
+(* whole arrays through OnArray / OnStringlikeArray: the short header iff the count allows it and the type has one *)
+Theorem array_event_header st t n d :
+  t < 256 -> n < two64 -> bytes_wf d ->
+  cbe_encode_event st (EArray t n d) = opt_map (fun h => (st, h ++ d)) (enc_whole_array_header t n) /\
+  cbe_encode_event st (EStringArray t d) = opt_map (fun h => (st, h ++ d)) (enc_whole_array_header t (len d)) /\
+  (n <= cbeMaxSmallArrayLength -> has_short_form t = true -> enc_whole_array_header t n = Some (short_header t n)) /\
+  (cbeMaxSmallArrayLength < n \/ (has_short_form t = false /\ array_info t <> None) ->
+   enc_whole_array_header t n = opt_map (fun h => h ++ uleb_encode (chunk_header n false)) (enc_array_header t)).
+Proof.
+  intros Ht Hn Hd. apply N.ltb_lt in Ht. split; [|split; [|split]].
+  - unfold cbe_encode_event, guard. rewrite Ht, is_u64_true by exact Hn. rewrite wfb_of_wf by exact Hd. cbn [andb].
+    destruct (enc_whole_array_header t n); reflexivity.
+  - unfold cbe_encode_event, guard. rewrite Ht. rewrite wfb_of_wf by exact Hd. cbn [andb].
+    destruct (enc_whole_array_header t (len d)); reflexivity.
+  - apply array_header_short.
+  - apply array_header_long.
+Qed.
+
+(* correspondence case: a stream and whether the harness expects it to lie in the covered fragment *)
+Definition frag_case := (list event * bool)%type.
+Definition frag_case_ok (c : frag_case) : bool := Bool.eqb (doc_okb (fst c)) (snd c).
